@@ -277,8 +277,26 @@ def strategy_cases(draw, with_pause, failing):
     return {'kind': 'wc_await', 'awaits': aws, 'reassign': reassign, 'schedule': sched}
 
 
+def enumerate_failing(nmax=2):
+    """C06/C10 x pause: a failing item and a succeeding one complete around a pause/play in every order (gaps 0/1)."""
+    n = 2
+    for kinds in itertools.product([('fut', 'ret'), ('child', 'toctx')], repeat=n):
+        for outcomes in ([['exc', 'e'], ['value', 1]], [['value', 1], ['exc', 'e']], [['exc', 'e1'], ['exc', 'e2']], [['kill', 'kt'], ['value', 2]]):
+            if any(o[0] == 'kill' and k[0] != 'child' for o, k in zip(outcomes, kinds)):
+                continue
+            events = [['complete', 0], ['complete', 1], ['pause', 'p'], ['play']]
+            for perm in itertools.permutations(events):
+                for gaps in ((0, 0, 0, 0), (0, 0, 0, 1), (1, 0, 0, 0), (0, 1, 0, 0), (1, 1, 1, 1)):
+                    sched = []
+                    for gap, ev in zip(gaps, perm):
+                        if gap:
+                            sched.append(['tick', gap])
+                        sched.append(list(ev))
+                    yield {'kind': 'wc_await', 'awaits': _awaits(n, kinds, [list(o) for o in outcomes]), 'schedule': sched}
+
+
 def strategy(tier):
-    return strategy_cases(True, False)
+    return strategy_cases(True, True)
 
 
 def execute(case):
